@@ -48,6 +48,15 @@ func c05DecodeOne(b []byte, dst any) bool {
 	return d.Decode(&x) == io.EOF
 }
 
+func c05DecodeChunked(b []byte, dst any, n int) bool {
+	d := gojson.NewDecoder(&cutReader{append([]byte{}, b...), n})
+	if err := d.Decode(dst); err != nil {
+		return false
+	}
+	var x any
+	return d.Decode(&x) == io.EOF
+}
+
 var c05Entries = []c05Entry{
 	{"Valid", func(b []byte) bool { return gojson.Valid(b) }, true, false},
 	{"Unmarshal:iface", func(b []byte) bool { var v any; return gojson.Unmarshal(b, &v) == nil }, false, false},
@@ -72,6 +81,16 @@ var c05Entries = []c05Entry{
 		var v struct{ U c05Unm }
 		return c05DecodeOne(b, &v)
 	}, true, true},
+	// the stream decoder fed in pieces: every refill boundary falls inside the text
+	{"Decode(1-byte reads):iface", func(b []byte) bool { var v any; return c05DecodeChunked(b, &v, 1) }, true, false},
+	{"Decode(2-byte reads):iface", func(b []byte) bool { var v any; return c05DecodeChunked(b, &v, 2) }, true, false},
+	{"Decode(3-byte reads):struct{A}", func(b []byte) bool {
+		var v struct {
+			A string `json:"a"`
+		}
+		return c05DecodeChunked(b, &v, 3)
+	}, true, true},
+	{"Decode(1-byte reads):[]string", func(b []byte) bool { var v []string; return c05DecodeChunked(b, &v, 1) }, true, true},
 	// option and context entry points (they share pooled decoder contexts with the ones above and
 	// with each other: the first-win entries run directly before the context ones)
 	{"UnmarshalNoEscape:iface", func(b []byte) bool { var v any; return gojson.UnmarshalNoEscape(b, &v) == nil }, false, false},
@@ -185,7 +204,13 @@ func c05Check(c *rt.Ctx, sub int, b []byte) {
 		}
 		if acc && !ref {
 			c.Obs("misaccept:"+e.name, 1)
-			c.Violate(rt.Violation{Monitor: "accept-language", Entry: e.name, Kind: "ok-vs-err", Ctx: c05Explain(b, e),
+			why := c05Explain(b, e)
+			if why == "relax=unexplained" && e.stream && bytes.IndexByte(b, 0) >= 0 {
+				// the NUL handling of the stream scanners (a NUL is stepped over whenever the reader
+				// can still be asked for data) is only partly modelled by the recogniser
+				why = "relax=stream:nul-skipped-unmodelled"
+			}
+			c.Violate(rt.Violation{Monitor: "accept-language", Entry: e.name, Kind: "ok-vs-err", Ctx: why,
 				Detail: e.name + " accepts " + rt.Q(b) + " which is not an RFC 8259 text", Input: string(b), Sub: sub})
 		} else if !acc && ref && c05Untyped(e.name) {
 			ctx := "valid-text-rejected:" + docClass(b)
